@@ -703,7 +703,15 @@ func checkValue(c ValueCase, o *vt.Obs) error {
 			}
 		}
 	}
-	if k.reuse != nil && k.ident != nil {
+	if k.reuse != nil {
+		// identity where the kind has one, its whole content otherwise
+		ident := func(v any) string {
+			if k.ident != nil {
+				return k.ident(v) + " " + k.dump(v)
+			}
+			return k.dump(v)
+		}
+		id0 := ident(v)
 		// a receiver that held ANOTHER value of the kind before (the tape read backwards builds one) and computed its
 		// identity reports, after decoding this one, what a fresh receiver reports
 		rev := make([]uint32, len(c.Tape))
@@ -714,7 +722,7 @@ func checkValue(c ValueCase, o *vt.Obs) error {
 		if eOther, _, err := safeEnc(k, vOther); err == nil {
 			obj := k.reuse.fresh()
 			if err := k.reuse.into(obj, eOther); err == nil {
-				idOther := k.ident(obj)
+				idOther := ident(obj)
 				if k.size != nil {
 					k.size(obj)
 				}
@@ -722,7 +730,7 @@ func checkValue(c ValueCase, o *vt.Obs) error {
 					if err := vd.fail("reused-object-stale-identity/"+fam, "%s: decoding a valid encoding into an object that held another value before fails: %v (a fresh object decodes it)", k.name, err); err != nil {
 						return err
 					}
-				} else if id := k.ident(obj); id != id0 {
+				} else if id := ident(obj); id != id0 {
 					if err := vd.fail("reused-object-stale-identity/"+fam, "%s: an object that held another value (%s) before and now decoded this one reports %s, a fresh object reports %s", k.name, idOther, id, id0); err != nil {
 						return err
 					}
@@ -735,12 +743,12 @@ func checkValue(c ValueCase, o *vt.Obs) error {
 					if err1 == nil && err2 == nil {
 						obj, fresh := k.reuse.fresh(), k.reuse.fresh()
 						if k.reuse.jsonInto(obj, jOther) == nil && k.reuse.jsonInto(fresh, j) == nil {
-							k.ident(obj)
+							ident(obj)
 							if err := k.reuse.jsonInto(obj, j); err != nil {
 								if err := vd.fail("reused-object-stale-identity/"+fam, "%s: UnmarshalJSON of own output into an object that held another value before fails: %v (a fresh object accepts it)", k.name, err); err != nil {
 									return err
 								}
-							} else if a, b := k.ident(obj), k.ident(fresh); a != b {
+							} else if a, b := ident(obj), ident(fresh); a != b {
 								if err := vd.fail("reused-object-stale-identity/"+fam, "%s: UnmarshalJSON into an object that held another value before reports %s, into a fresh object %s", k.name, a, b); err != nil {
 									return err
 								}
